@@ -43,6 +43,37 @@ def gtOps (e : C04.Env) : TOps (List Nat) :=
     exp := fun a k => if k < 0 then d.pow ((d.inv? a).getD d.zero) k.natAbs else d.pow a k.natAbs,
     eq := d.eq }
 
+/-- the numeric hypotheses of the membership theorems (Lemmas/PcValid.lean) on the reported constants, and their universally
+    quantified hypotheses INSTANTIATED AT THE GENERATORS (a necessary condition, not the hypothesis itself); empty = all hold -/
+def hypotheses (e : C04.Env) : List String :=
+  let b := e.base
+  let kv := b.kv
+  let z := e.x
+  let p : Int := b.d12.p
+  let r : Int := b.n
+  if famOf e.fam != .b12 || kv.lookup "vendom" != some "1" || kv.lookup "vb383" == some "1" then [] else
+  let h1 := ((kv.lookup "h1").bind parseHexNat).getD 0
+  let beta := ((kv.lookup "vbeta").bind parseHexNat).getD 0
+  let h2 := ((kv.lookup "h2").bind parseHexNat).getD 0
+  let o1 := g1Ops b.c1 beta
+  let t := z + 1
+  let m := z ^ 2 - t * z + p
+  (if r == z ^ 4 - z ^ 2 + 1 then [] else ["B12: r is not z^4 - z^2 + 1"]) ++
+  (if h1 == 1 || o1.add (o1.add (o1.psi (o1.psi b.g1)) (o1.psi b.g1)) b.g1 == none then [] else ["B12: psi^2 + psi + 1 does not vanish at the G1 generator"]) ++
+  (if (r % (Int.gcd m ((h2 * b.n : Nat) : Int) : Int)) == 0 then [] else ["B12: gcd(z^2 - t z + p, #E'(Fp2)) does not divide r"]) ++
+  (match (do
+      let d2 := b.e2.c.d
+      let el2 := fun (s : String) => match s.splitOn "," with
+        | [x, y] => C11.parseEl d2 x y
+        | _ => none
+      let f0 ← el2 (← kv.lookup "vfrb0")
+      let f1 ← el2 (← kv.lookup "vfrb1")
+      let o2 := g2Ops b.e2.c f0 f1
+      let g := b.e2.g
+      some (o2.add (o2.add (o2.psi (o2.psi g)) (o2.neg (o2.mul (o2.psi g) t))) (o2.mul g p) == none)) with
+    | some true => []
+    | _ => ["B12: psi^2 - t psi + p does not vanish at the G2 generator"])
+
 def b2s (b : Bool) : String := if b then "r=1" else "r=0"
 
 def handle (e : C04.Env) (op : String) (args : List String) (_got : String) : Option Verdict :=
